@@ -88,6 +88,9 @@ def _cases(draw, op=None):
     prof = gen.Profile(max_entries=3, max_synsets=3, allow_no_pos_synset=True)
     res = draw(gen.resources(prof, max_lexicons=3))
     initial = draw(st.sampled_from(['empty', 'unrelated', 'base']))
+    if any(lx.get('extends') for lx in res['lexicons']) and draw(st.integers(0, 2)) > 0:
+        # the base is installed and its extension is what the failing add brings
+        initial = 'base'
     via = draw(st.sampled_from(['file', 'memory']))
     seedpos = draw(st.lists(st.integers(0, 10 ** 6), min_size=12, max_size=12))
     return {'op': op, 'resource': res, 'initial': initial, 'via': via,
@@ -114,7 +117,12 @@ def _split(case):
     if case['initial'] == 'unrelated':
         init.append(_unrelated())
     elif case['initial'] == 'base' and len(res['lexicons']) > 1:
-        init.append({'lmf_version': res['lmf_version'], 'lexicons': [res['lexicons'][0]]})
+        based = {(lx['extends']['id'], lx['extends']['version'])
+                 for lx in res['lexicons'] if lx.get('extends')}
+        pre = [lx for lx in res['lexicons']
+               if not lx.get('extends') and (lx['id'], lx['version']) in based]
+        init.append({'lmf_version': res['lmf_version'],
+                     'lexicons': pre or [res['lexicons'][0]]})
     return init, res
 
 
